@@ -127,6 +127,36 @@ class OldSeq:
         return self._items[n]
 
 
+class Falsy(NoLen):
+    """an iterable that is false although it yields items (a lazy cursor that has not fetched anything yet)"""
+
+    def __bool__(self):
+        return False
+
+
+class LazyLen(NoLen):
+    """len() counts what has been fetched so far: 0 before the first iteration"""
+
+    def __init__(self, items):
+        NoLen.__init__(self, items)
+        self._seen = 0
+
+    def __len__(self):
+        return self._seen
+
+    def __iter__(self):
+        for x in self._items:
+            self._seen += 1
+            yield x
+
+
+class NoBool(NoLen):
+    """an array-like object whose truth value cannot be taken"""
+
+    def __bool__(self):
+        raise ValueError("the truth value of this object is ambiguous")
+
+
 def _userlist(items):
     import collections
     return collections.UserList(items)
@@ -137,7 +167,8 @@ def _deque(items):
     return collections.deque(items)
 
 
-CARRIERS = {"tuple": tuple, "userlist": _userlist, "bag": Bag, "nolen": NoLen, "oldseq": OldSeq, "deque": _deque}
+CARRIERS = {"tuple": tuple, "userlist": _userlist, "bag": Bag, "nolen": NoLen, "oldseq": OldSeq, "deque": _deque,
+            "falsy": Falsy, "lazylen": LazyLen, "nobool": NoBool}
 
 
 def make_exc(c):
